@@ -37,6 +37,10 @@ pub struct ParserRun {
     /// largest `size_hint().0 - items still to come` seen before any poll (0 if the hint never over-promised)
     pub hint_overpromise: usize,
     pub hint_max_lower: usize,
+    /// a second consumer that advances with `nth(k)` (what `skip` and `step_by` do): k, and its poll results
+    pub nth_step: usize,
+    pub nth_polls: Vec<Poll>,
+    pub nth_panic: Option<crate::core::Violation>,
 }
 
 pub fn run_parsers(x: &[u8], extra_polls: usize) -> ParserRun {
@@ -116,6 +120,41 @@ pub fn run_parsers(x: &[u8], extra_polls: usize) -> ParserRun {
         stream_alloc = armed.stats();
     });
     let stream_panic = sp.err();
+
+    // second consumer: advances with nth(k), keeps polling a few times after its first Err / None
+    let nth_step = 1 + x.len() % 3;
+    let mut nth_polls: Vec<Poll> = Vec::new();
+    let mut nth_panic = None;
+    if x.len() <= 4096 && stream_panic.is_none() && !budget_exhausted {
+        let after = extra_polls.clamp(2, 8);
+        nth_panic = catch(|| {
+            let mut p = Parser::new(x);
+            let mut ended = false;
+            let mut extra = 0usize;
+            loop {
+                match p.nth(nth_step) {
+                    None => {
+                        nth_polls.push(Poll::None);
+                        ended = true;
+                    }
+                    Some(Ok(_)) => nth_polls.push(Poll::Event),
+                    Some(Err(_)) => {
+                        nth_polls.push(Poll::Err);
+                        ended = true;
+                    }
+                }
+                if ended {
+                    if extra >= after {
+                        break;
+                    }
+                    extra += 1;
+                } else if nth_polls.len() >= budget {
+                    break;
+                }
+            }
+        })
+        .err();
+    }
     let reassembled = reassemble(&events);
     // items actually produced from poll k on = number of polls k.. that returned an item
     let mut hint_overpromise = 0usize;
@@ -144,6 +183,9 @@ pub fn run_parsers(x: &[u8], extra_polls: usize) -> ParserRun {
         reassembled,
         hint_overpromise,
         hint_max_lower,
+        nth_step,
+        nth_polls,
+        nth_panic,
     }
 }
 
